@@ -163,7 +163,7 @@ class LiteDRAMAvalonMM2Native(LiteXModule):
             # FIFO consumer
             port.cmd.addr.eq(cmd_fifo.source.payload.address),
             port.cmd.we.eq(port.cmd.valid),
-            port.cmd.valid.eq(cmd_fifo.source.valid & (0 < wdata_fifo.level)),
+            port.cmd.valid.eq(cmd_fifo.source.valid),
             cmd_fifo.source.ready.eq(port.cmd.ready),
 
             port.wdata.data.eq(wdata_fifo.source.payload.data),
@@ -177,6 +177,7 @@ class LiteDRAMAvalonMM2Native(LiteXModule):
             port.cmd.addr.eq(address),
             port.cmd.we.eq(0),
             port.cmd.valid.eq(~cmd_ready_seen),
+            port.cmd.last.eq(cmd_ready_count == 1),
 
             port.rdata.ready.eq(1),
             avalon.readdata.eq(port.rdata.data),
